@@ -274,6 +274,24 @@ def main():
                 if "out of memory" in out and not plan.get("oom_is_violation"):
                     inconclusive.append("%s shard %d: worker out of memory\n%s" % (j["test"], j["shard"], out[:1500]))
                     continue
+                if ("found bad pointer in Go heap" in out or "marked free object" in out):
+                    # the collector met a pointer one past an allocation: listed for some properties (a position node at the very
+                    # end of an exact-size buffer, C06-end-pointer-caller-buffer); it cannot be attributed to a case
+                    gck = None
+                    try:
+                        for kf in json.load(open(kf_path))["findings"]:
+                            if kf["property"] == prop and kf["status"] == "known" and kf.get("symptom") == "process-death:gc-bad-pointer":
+                                gck = kf
+                    except Exception:
+                        pass
+                    if gck is not None:
+                        a = agg.setdefault(j["test"], {"evaluations": 0, "classes": {}, "samples": [], "known": {}, "quarantined_cases": 0,
+                                                       "rule": "", "exhaustive": False})
+                        key = gck["region"] + "|process-death:gc-bad-pointer"
+                        a["known"][key] = a["known"].get(key, 0) + 1
+                        with open(os.path.join(replay_dir, "%s-%d-%s-%d.gc.log" % (tier, seed, j["test"], j["shard"])), "w") as f:
+                            f.write(tail)
+                        continue
                 rp = j["env"]["VERIF_REPLAY_OUT"]
                 try:
                     case = json.load(open(lc))
